@@ -173,7 +173,111 @@ fn random_cfg(rng: &mut SmallRng, mode: &str) -> Cfg {
     }
 }
 
+/// One real endpoint ("A") against a scripted raw peer that sends arbitrary well-formed frames
+/// (and occasionally a non-frame), while A's application keeps using its streams.
+fn adversary_trace(rng: &mut SmallRng, steps: usize) -> Sim {
+    let mut cfg = random_cfg(rng, "adv");
+    cfg.bind_cap = rng.random_range(0..=1);
+    let cfgs = [cfg.clone(), cfg];
+    let mut sim = Sim::new(cfgs, 1);
+    let mut intent = Intent::default();
+    let mut next_c = 1u32;
+    let mut seen_ids: Vec<u32> = vec![0, 1, 2, 3];
+    let junk_at = if rng.random_range(0..4) == 0 { rng.random_range(0..steps.max(1)) } else { usize::MAX };
+    for step in 0..steps {
+        if sim.dead {
+            break;
+        }
+        if step == junk_at {
+            sim.exec(&json!({"op": "inject", "e": "A", "m": {"op": "junk"}}));
+            continue;
+        }
+        let mut cands: Vec<(u32, Value)> = Vec::new();
+        if sim.task_alive(0) {
+            cands.push((8, json!({"op": "task", "e": "A", "gr": 1, "gs": 0})));
+            cands.push((6, json!({"op": "task", "e": "A", "gr": 0, "gs": 1})));
+            cands.push((4, json!({"op": "task", "e": "A", "gr": 1, "gs": 1})));
+        }
+        if sim.wire_len(0) > 0 {
+            cands.push((6, json!({"op": "take", "e": "B"})));
+        }
+        // the raw peer: any opcode on a small id alphabet (0, ids A uses, ids A requested, unknown ids)
+        let id = pick(rng, &seen_ids);
+        let op = pick(rng, &["connect", "ack", "reset", "finish", "push", "push", "bind", "dgram", "ping", "pong"]);
+        let m = match op {
+            "connect" => json!({"op": "connect", "id": id, "n": rng.random_range(0..=3), "host": pick(rng, &["hx", ""]), "port": 9}),
+            "ack" => json!({"op": "ack", "id": id, "n": rng.random_range(0..=3)}),
+            "push" => json!({"op": "push", "id": id, "w": rng.random_range(1..=8), "off": rng.random_range(0..8), "len": rng.random_range(0..=3)}),
+            "bind" => json!({"op": "bind", "id": id, "bt": pick(rng, &[1, 3]), "host": "bx", "port": 1}),
+            "dgram" => json!({"op": "dgram", "id": id, "host": pick(rng, &["", "dx"]), "port": 5, "data": pick(rng, &["", "a", "abcd"])}),
+            o => json!({"op": o, "id": id}),
+        };
+        cands.push((10, json!({"op": "inject", "e": "A", "m": m})));
+        if sim.eps[0].mux.is_some() {
+            if sim.eps[0].opens.len() + sim.eps[0].streams.len() < 4 {
+                let nd = rng.random_range(1..=2);
+                let draws: Vec<u32> = (0..nd).map(|_| rng.random_range(0..=3)).collect();
+                cands.push((3, json!({"op": "open", "e": "A", "c": next_c, "host": "h0", "port": 7, "draws": draws})));
+            }
+            for c in sim.eps[0].opens.keys() {
+                let draws: Vec<u32> = (0..rng.random_range(0..=2)).map(|_| rng.random_range(0..=3)).collect();
+                cands.push((3, json!({"op": "open_poll", "e": "A", "c": c, "draws": draws})));
+            }
+            cands.push((3, json!({"op": "accept", "e": "A"})));
+            cands.push((2, json!({"op": "dg_get", "e": "A"})));
+            cands.push((1, json!({"op": "next_bind", "e": "A"})));
+        }
+        for r in sim.eps[0].breqs.keys() {
+            cands.push((1, json!({"op": "bind_reply", "e": "A", "r": r, "accept": rng.random_bool(0.5)})));
+        }
+        for h in sim.eps[0].streams.keys() {
+            cands.push((3, json!({"op": "write", "e": "A", "h": h, "len": pick(rng, &[1usize, 2, 0])})));
+            cands.push((4, json!({"op": "read", "e": "A", "h": h, "max": pick(rng, &[1usize, 8])})));
+            cands.push((1, json!({"op": "shutdown", "e": "A", "h": h})));
+            cands.push((1, json!({"op": "drop", "e": "A", "h": h})));
+        }
+        let total: u32 = cands.iter().map(|c| c.0).sum();
+        let mut x = rng.random_range(0..total);
+        let mut chosen = cands[0].1.clone();
+        for (w, c) in &cands {
+            if x < *w {
+                chosen = c.clone();
+                break;
+            }
+            x -= w;
+        }
+        let n0 = sim.out.len();
+        sim.exec(&chosen);
+        if sim.out.len() > n0 {
+            let ev = sim.out[sim.out.len() - 1].clone();
+            if chosen["op"] == "open" {
+                next_c += 1;
+            }
+            if ev["ev"] == "take" {
+                if let Some(id) = ev["m"]["id"].as_u64() {
+                    if !seen_ids.contains(&(id as u32)) && seen_ids.len() < 10 {
+                        seen_ids.push(id as u32);
+                    }
+                }
+            }
+            if chosen["op"] == "write" && ev["res"] == "pending" {
+                let h = chosen["h"].as_u64().unwrap() as u32;
+                if !intent.writes.iter().any(|w| w.1 == h) {
+                    intent.writes.push((0, h, ev["len"].as_u64().unwrap() as usize));
+                }
+            }
+        }
+    }
+    if !sim.dead {
+        settle(&mut sim, &mut intent, false);
+    }
+    sim
+}
+
 fn random_trace(mode: &str, rng: &mut SmallRng, steps: usize) -> Sim {
+    if mode == "adv" {
+        return adversary_trace(rng, steps);
+    }
     let cfgs = [random_cfg(rng, mode), random_cfg(rng, mode)];
     let mut sim = Sim::new(cfgs.clone(), 2);
     let mut intent = Intent::default();
